@@ -28,6 +28,7 @@ type docGen struct {
 	lang int // 0 latin, 1 cjk mix, 2 hangul mix
 	ogAlias string
 	accented bool
+	r2 *Rand
 }
 
 var latinStems = []string{"alpha", "bravo", "candle", "delta", "ember", "fjord", "garnet", "harbor", "island", "jungle",
@@ -82,6 +83,21 @@ func (g *docGen) words(n int) string {
 }
 
 func (g *docGen) f(name string) { g.feat[name] = true }
+
+// wrapTail puts everything written since start inside a wrapper element.
+func (g *docGen) wrapTail(start int) {
+	s := g.sb.String()
+	if start < 0 || start >= len(s) {
+		return
+	}
+	w := Pick(g.r2, wrappers)
+	g.f("block-in-wrapper")
+	g.f("block-in-" + w)
+	head, tail := s[:start], s[start:]
+	g.sb.Reset()
+	g.sb.WriteString(head)
+	g.sb.WriteString("<" + w + ">" + tail + "</" + w + ">\n")
+}
 
 func (g *docGen) w(s string) { g.sb.WriteString(s) }
 
@@ -747,8 +763,14 @@ func (g *docGen) head(host string) {
 		if g.r.P(1, 5) {
 			pfx = "foo"
 		}
+		ogTitle := t1
+		if g.r2 != nil && g.r2.Bool() {
+			// the whole window title, separators and site name included
+			g.f("og-title-with-separator")
+			ogTitle = title
+		}
 		g.wf(`<meta property="%s:title" content="%s"><meta property="%s:type" content="%s"><meta property="%s:url" content="http://%s/og-url"><meta property="%s:image" content="http://%s/og.jpg">`,
-			pfx, t1, pfx, Pick(g.r, []string{"article", "website", "profile", "video.movie"}), pfx, host, pfx, host)
+			pfx, ogTitle, pfx, Pick(g.r, []string{"article", "website", "profile", "video.movie"}), pfx, host, pfx, host)
 		if g.r.Bool() {
 			g.wf(`<meta property="og:image:width" content="%d"><meta property="og:image:height" content="x"><meta property="og:image" content="http://%s/og2.jpg"><meta property="og:image:secure_url" content="https://%s/og2.jpg">`, g.r.Intn(900), host, host)
 		}
@@ -900,6 +922,11 @@ func (g *docGen) body(host string) string {
 		pagerAt = g.r.Intn(blocks + 1)
 	}
 	for i := 0; i < blocks; i++ {
+		// (r2: decisions added later draw from their own stream, so that pages of earlier seeds keep their shape)
+		blockStart := -1
+		if g.r2 != nil && g.r2.P(1, 30) {
+			blockStart = g.sb.Len()
+		}
 		if i == pagerAt {
 			pageURL = g.pager(host)
 		}
@@ -975,6 +1002,10 @@ func (g *docGen) body(host string) string {
 		default:
 			g.schemaOrg()
 		}
+		if blockStart >= 0 {
+			// whatever this block is (the pager included), it exists only inside a wrapper
+			g.wrapTail(blockStart)
+		}
 	}
 	if pagerAt == blocks {
 		pageURL = g.pager(host)
@@ -1011,7 +1042,7 @@ func (g *docGen) body(host string) string {
 // Document generates one page from a seed.
 func Document(seed uint64) GenDoc {
 	r := Derive(seed, 0xd0c)
-	g := &docGen{r: r, id: fmt.Sprintf("x%x", seed&0xfff), feat: map[string]bool{}}
+	g := &docGen{r: r, id: fmt.Sprintf("x%x", seed&0xfff), feat: map[string]bool{}, r2: Derive(seed, 0xb10c)}
 	g.lang = 0
 	if r.P(1, 5) {
 		g.accented = true
